@@ -487,6 +487,9 @@ impl Session {
         self.mtu = mtu;
         self.window_size = window_size;
         self.handshake_pending = !self.initiator;
+        // A (repeated) handshake starts a new session: nothing of a previous one may leak into it
+        self.recv_window.reset();
+        self.send_window.reset();
         self.recv_window.level = window_size;
         self.send_window.window_size = window_size;
         self.send_window.level = window_size;
